@@ -18,11 +18,72 @@ from ..program import rel, AnalysisError
 POLY = "functions.plscf.ac2mp_poly"
 
 
+def constraint(prog, run):
+    """R-constraint: the coefficient stack alpha is [I ; solution] for the low-order constraint (basis sign -1) and [solution ; I] for the
+    high-order one (+1): the identity block sits at the constrained end, un-permuted.  A reversal of ALL rows of such a stack (a trick to
+    reuse one solver for both signs) also reverses the rows inside every block: the identity becomes the exchange matrix and every
+    coefficient is multiplied by it, unless the columns are reversed as well."""
+    run.rule("R-constraint", "alpha = [I ; X] (constraint on the lowest coefficient) / [X ; I] (highest): identity block at the constrained end, not permuted", 2)
+    fi = prog.func("functions.plscf.pLSCF")
+    f = rel(prog.mods[fi.mod].path)
+    STACK = ("numpy.vstack", "numpy.concatenate", "numpy.row_stack")
+
+    def blocks_of(e):
+        """[block expressions] of np.r_[a, b] / vstack((a, b)) / concatenate((a, b)[, axis=0])"""
+        if isinstance(e, ast.Subscript) and astq.src(e.value) in ("np.r_", "numpy.r_"):
+            return list(astq.index_elts(e))
+        if isinstance(e, ast.Call) and astq.callee_name(prog, fi, e) in STACK and e.args and isinstance(e.args[0], (ast.Tuple, ast.List)):
+            return list(e.args[0].elts)
+        return None
+
+    def is_eye(e):
+        return isinstance(e, ast.Call) and astq.callee_name(prog, fi, e) in ("numpy.eye", "numpy.identity")
+    for label, want_pos in (("LO", 0), ("HI", -1)):
+        cfg = f"constr={label}"
+        pf = astq.PrunedFn(fi, {"constr": label, "sgn_basf": -1 if label == "LO" else 1})
+        apps = [c for c in ast.walk(pf.node) if isinstance(c, ast.Call) and isinstance(c.func, ast.Attribute) and c.func.attr == "append" and isinstance(c.func.value, ast.Name)]
+        rets = [r for r in ast.walk(pf.node) if isinstance(r, ast.Return) and isinstance(r.value, ast.Tuple)]
+        first_list = rets[-1].value.elts[0].id if rets and isinstance(rets[-1].value.elts[0], ast.Name) else None
+        target = [c for c in apps if c.func.value.id == first_list]
+        if not target:
+            run.ob("R-constraint", fi.qual, "coefficient stack", None, "the appended denominator coefficients were not found", file=f, config=cfg)
+            continue
+        x = astq.expr_at(pf, target[0], target[0].args[0])
+        # strip the final reshape into blocks
+        while isinstance(x, ast.Call) and isinstance(x.func, ast.Attribute) and x.func.attr in ("reshape", "copy", "astype"):
+            x = x.func.value
+        rev_rows = rev_cols = False
+        core = x
+        if isinstance(core, ast.Subscript) and blocks_of(core) is None:
+            el = astq.index_elts(core)
+            def is_rev(sl):
+                return isinstance(sl, ast.Slice) and sl.lower is None and sl.upper is None and sl.step is not None and astq.src(sl.step).replace(" ", "") == "-1"
+            if all(isinstance(z, ast.Slice) for z in el) and any(is_rev(z) for z in el):
+                rev_rows = is_rev(el[0])
+                rev_cols = len(el) > 1 and is_rev(el[1])
+                core = core.value
+        bl = blocks_of(core)
+        if bl is None or len(bl) != 2 or sum(1 for b in bl if is_eye(b)) != 1:
+            run.ob("R-constraint", fi.qual, "coefficient stack", None, f"alpha = `{astq.src(x, 90)}` is not a stack of the identity block and a solution", file=f, node=target[0], config=cfg)
+            continue
+        pos = 0 if is_eye(bl[0]) else -1
+        if rev_rows:
+            pos = -1 if pos == 0 else 0
+        ok_pos = pos == want_pos
+        run.ob("R-constraint", fi.qual, f"identity block at the {'first' if want_pos == 0 else 'last'} coefficient", ok_pos,
+               f"alpha = `{astq.src(x, 80)}`: identity block {'first' if pos == 0 else 'last'}" + (" (after the row reversal)" if rev_rows else ""), witness=f"{label}:{pos}", file=f, node=target[0], config=cfg)
+        if rev_rows:
+            run.ob("R-constraint", fi.qual, "a reversal of the stacked rows is matched by a reversal of the columns", rev_cols,
+                   f"`{astq.src(x, 80)}`" + ("" if rev_cols else ": the rows INSIDE every block are reversed too - the identity block becomes the exchange matrix and every coefficient is multiplied by it"),
+                   witness="row-reversal", file=f, node=target[0], config=cfg)
+
+
 def check(prog, run):
+    constraint(prog, run)
     run.rule("R-map", "ac2mp_poly: lambda_c = log(lambda_d)/dt, fn = |lambda_c|/(2 pi), xi = -Re(lambda_c)/|lambda_c|", 3)
     run.rule("R-blank", "Re(lambda) > 0 blanks eigenvalue and eigenvector column alike (same predicate, same array), before fn/xi/phi; inf frequency -> NaN", 5)
     run.rule("O-units", "pLSCF: exp argument dimensionless, alpha ~ S^0, beta ~ S^1 for both basis-function signs; poles ~ 1/s", 8)
-    run.rule("R-gram", "pLSCF: every inverse / linear solve inside the order loop is taken of a matrix built for THAT order (no block of the inverse of a larger Gramian)", 3)
+    run.rule("R-gram", "pLSCF: every inverse / linear solve inside the order loop is taken of a matrix built for THAT order (no block of the inverse of a larger Gramian)", 2)
     run.rule("R-pad", "Fns, Xis, Lambds padded by zip_longest(fillvalue=nan), Phi by a NaN-filled array: rectangular tables", 4)
     mapform.map_obligations(prog, run, "R-map", POLY, {"methodSy": "per"}, "methodSy=per", (0, 1, 3))
     run.rule("R-grid", "pLSCF samples its basis function on Nf lines from 0 to the Nyquist frequency inclusive", 1)
